@@ -287,9 +287,11 @@ def mailParams (cfg : Cfg) : List (Bytes × Bytes) → MailOpts → Bool → POu
         else mailParams cfg rest { o with size := size } bm
     else if key == "SMTPUTF8".b then
       if !cfg.utf8 then .refuse 504 ⟨5, 5, 4⟩ "SMTPUTF8 is not implemented"
+      else if !value.isEmpty then .refuse 501 ⟨5, 5, 4⟩ "SMTPUTF8 does not take a value"
       else mailParams cfg rest { o with utf8 := true } bm
     else if key == "REQUIRETLS".b then
       if !cfg.reqtls then .refuse 504 ⟨5, 5, 4⟩ "REQUIRETLS is not implemented"
+      else if !value.isEmpty then .refuse 501 ⟨5, 5, 4⟩ "REQUIRETLS does not take a value"
       else mailParams cfg rest { o with requireTLS := true } bm
     else if key == "BODY".b then
       let v := toUpper value
